@@ -24,6 +24,11 @@ RULE = (
   "(connect/weld/joint/tendon equality switched at run time, limited spatial and fixed tendons), 4 worlds with "
   "different initial velocities and different random perturbation schedules (xfrc/qfrc pulses, velocity kicks on "
   "awake and sleeping trees, eq_active toggles, ctrl), 250 (quick) / 1500 (thorough) steps of forward+integrator. "
+  "Second family (eqwake / eqsched): zero-gravity contact-free scene of 4-7 strongly damped trees (slide, 2-slide, free, "
+  "hinge, 2-body chain) that fall asleep in cycles of their own within ~12 steps; links that appear at run time: "
+  "connect / weld by bodies and by sites (child bodies too), joint equalities, tendon equalities, connects to the world, "
+  "switched through eq_active while both trees sleep in different cycles or while one was just kicked awake; limited "
+  "fixed / spatial / geom-wrapping tendons whose limit is driven active by pushing one tree. "
   "Non-trivial: at least one tree fell asleep and at least one sleeping tree woke; distinct by hash(xml, event list)."
 )
 ASSUMPTIONS = [
@@ -58,6 +63,14 @@ ITER = 10  # the compacted solve runs every iteration on the CPU device (no earl
 
 def cases(tier, seed):
   out = []
+  # constraints that appear at run time between trees that are already asleep (see eqwake_scene).  Cheap cases (a few
+  # seconds each); the weight only has to exceed the histories' so that the runner starts them first and the soft
+  # budget never cuts the family off
+  ne = 14 if tier == "quick" else 160
+  for i in range(ne):
+    out.append(
+      {"id": f"eqwake{seed}_{i}", "kind": "eqwake", "seed": seed * 100000 + 20000 + i, "steps": 260 if tier == "quick" else 900, "entry": "step" if i % 4 == 3 else "split", "weight": 3.01}
+    )
   n = 32 if tier == "quick" else 400
   steps = 250 if tier == "quick" else 1500
   for i in range(n):
@@ -70,12 +83,6 @@ def cases(tier, seed):
   nf = 4 if tier == "quick" else 24
   for i in range(nf):
     out.append({"id": f"wakeorder{seed}_{i}", "kind": "wakeorder", "seed": seed * 100000 + 9000 + i, "mode": "perm", "weight": 5})
-  # constraints that appear at run time between trees that are already asleep (see eqwake_scene)
-  ne = 14 if tier == "quick" else 160
-  for i in range(ne):
-    out.append(
-      {"id": f"eqwake{seed}_{i}", "kind": "eqwake", "seed": seed * 100000 + 20000 + i, "steps": 260 if tier == "quick" else 900, "entry": "step" if i % 4 == 3 else "split", "weight": 2}
-    )
   for i in range(2 if tier == "quick" else 16):
     out.append({"id": f"eqsched{seed}_{i}", "kind": "eqsched", "seed": seed * 100000 + 26000 + i, "steps": 150 if tier == "quick" else 500, "mode": "perm", "weight": 3})
   return out
@@ -110,7 +117,7 @@ def eqwake_scene(seed):
   for k in range(nt):
     kind = str(EQW_TREES[int(rng.integers(len(EQW_TREES)))])
     feats.add("eqw_tree:" + kind)
-    y = 0.6 * k
+    y = 0.4 * k
     x = float(rng.uniform(-0.1, 0.1))
     sites = f'<site name="s{k}" pos=".05 0 0"/><site name="u{k}" pos="-.05 0 .02"/>'
     wrapg = f'<geom name="g{k}" type="{"sphere" if rng.random() < 0.5 else "cylinder"}" size=".03 .05" mass=".2"/>'
@@ -138,14 +145,22 @@ def eqwake_scene(seed):
       )
       trees.append({"bodies": [f"r{k}", f"c{k}"], "joints": [f"ja{k}", f"jb{k}"]})
   eqs, tendons, eq_kind, ten_kind, spatial_slack = [], [], [], [], {}
-  with_teneq = rng.random() < 0.3  # MuJoCo refuses tendon equalities under sleeping: keep most scenes lock-step comparable
+  # MuJoCo refuses tendon equalities under sleeping, and aborts on a sleeping tree that owns rows of its own (equality to
+  # the world, see cycle:rebuilt_while_asleep): most scenes stay free of both so that every step is lock-step comparable
+  flavour = str(rng.choice(["plain", "plain", "plain", "single", "teneq"]))
+  with_teneq = flavour == "teneq"
+  feats.add("eqw_flavour:" + flavour)
   nl = int(rng.integers(3, 7))
   for li in range(nl):
     a, b = [int(v) for v in rng.choice(nt, size=2, replace=False)]
     ta, tb = trees[a], trees[b]
     lk = str(EQW_LINKS[int(rng.integers(len(EQW_LINKS)))])
-    if li < 2:  # every scene has at least two of the body/site equalities
-      lk = str(rng.choice(["connect_body", "connect_site", "weld_body", "weld_site"]))
+    if li < 2:  # every scene has two of the body/site/joint equalities, rotating with the scene seed
+      lk = EQW_REQUIRED[(seed + 2 * li) % len(EQW_REQUIRED)]
+      if lk == "joint" and not (ta["joints"] and tb["joints"]):
+        lk = "connect_site"
+    if lk in ("joint_single", "connect_world", "connect_world_site") and flavour != "single":
+      lk = str(rng.choice(["connect_site", "weld_site", "joint", "limit_fixed", "limit_spatial", "limit_wrap"]))
     act = "true" if rng.random() < 0.1 else "false"
     name = f'name="e{len(eqs)}" active="{act}"'
     ba, bb = str(rng.choice(ta["bodies"])), str(rng.choice(tb["bodies"]))
@@ -248,7 +263,7 @@ def eqwake_states(rng, mjm, nworld):
       for t in range(mjm.ntree):
         if rng.random() < 0.5:
           a, n = int(mjm.tree_dofadr[t]), int(mjm.tree_dofnum[t])
-          qvel[a : a + n] = (rng.normal(size=n) * 0.4).astype(np.float32)
+          qvel[a : a + n] = (rng.normal(size=n) * 0.15).astype(np.float32)
     sts.append({"qpos": np.array(mjm.qpos0, dtype=np.float32), "qvel": qvel})
   return sts
 
@@ -269,7 +284,19 @@ def eqwake_events(rng, mjm, topo, meta, steps, nworld):
 
   for w in range(nworld):
     active = np.array(mjm.eq_active0, dtype=bool).copy()
-    t = int(rng.integers(16, 40))
+    t = int(rng.integers(16, 30)) if w == 0 else int(rng.integers(70, 86))  # worlds > 0 start moving and settle later
+    # the first two equalities of a scene are of the rotating body/site/joint kinds: each of them meets both
+    # configurations (switched on over two sleepers / shortly after one of the two was kicked awake) in some world
+    for k, e in enumerate(two[:2]):
+      if active[e]:
+        continue
+      if (w + k) % 2 == 0:
+        ev[w].setdefault(t, []).append(("eq", e))
+      else:
+        kick(w, t, int(topo.eq_trees[e][1][int(rng.integers(2))]), float(rng.choice([0.3, 1.0])))
+        ev[w].setdefault(t + int(rng.integers(0, 7)), []).append(("eq", e))
+      active[e] = True
+      t += int(rng.integers(70, 90))
     while t < steps - 5:
       kind = str(rng.choice(["eq_on", "eq_on", "kick_eq", "kick_eq", "kick_limit", "kick_limit", "kick", "eq_off", "force", "eq_any"]))
       off_two = [e for e in two if not active[e]]
@@ -596,6 +623,16 @@ class WorldMon:
     if not ok0:
       self.retired = True
       return
+    if split:
+      # an active connect/weld/joint equality between two trees that sleep in different cycles wakes both in forward
+      # (judged before the cycle bookkeeping below: the unwoken pair forms an island of sleepers that sleep() rebuilds)
+      Af = mid["tree_asleep"][w]
+      cf = {t: c for c in _isl.cycles_of(Af)[0] for t in c}
+      for kind, ts in topo.links(np.zeros((0, 2), int), pre["eq_active"][w], mid["ten_length"][w]):
+        if kind == "equality" and Af[ts[0]] >= 0 and Af[ts[1]] >= 0:
+          rec.check()
+          if cf.get(ts[0]) != cf.get(ts[1]):
+            rec.viol("wake:equality_two_sleeping_cycles", f"active equality between sleeping trees {ts} of different cycles did not wake them: tree_asleep after forward {Af.tolist()} (before {A0.tolist()}) {ctx}", trees=list(ts))
     rebuilt = [int(t) for t in np.nonzero(S0 & S1 & (A0 != A1))[0]]
     if rebuilt:
       isl_now = mid["tree_island"][w] if mid is not None else None
@@ -681,8 +718,6 @@ class WorldMon:
         st = [bool(Sm[t]) for t in ts]
         if any(st) and not all(st):
           rec.viol(f"wake:{kind}_awake_asleep_pair", f"{kind} links trees {ts} but asleep flags after forward are {st}: tree_asleep={Am.tolist()} (before {A0.tolist()}) {ctx}", trees=list(ts))
-        elif all(st) and kind in ("equality",) and cyc_of.get(ts[0]) != cyc_of.get(ts[1]):
-          rec.viol("wake:equality_two_sleeping_cycles", f"active equality between sleeping trees {ts} of different cycles did not wake them {ctx}")
       # -- H4: every wake has a cause
       if woke.any():
         just = set(int(t) for t in np.nonzero(~S0)[0]) | set(int(t) for t in np.nonzero(pert)[0])
@@ -778,7 +813,7 @@ def mj_onestep(mjm, mjd, pre, w):
   mujoco.mj_step(mjm, mjd)
 
 
-def lockstep(rec, topo, mjd, pre, mid, post, w, ctx, iterations, wlinks=None):
+def lockstep(rec, topo, mjd, pre, mid, post, w, ctx, iterations, wlinks=None, woken_vel=False):
   mjm = topo.mjm
   try:
     mj_onestep(mjm, mjd, pre, w)
@@ -788,6 +823,10 @@ def lockstep(rec, topo, mjd, pre, mid, post, w, ctx, iterations, wlinks=None):
     return
   A1, B1 = post["tree_asleep"][w], np.array(mjd.tree_asleep)
   # gating
+  if any(int(mjd.warning[int(k)].number) for k in (mujoco.mjtWarning.mjWARN_BADQPOS, mujoco.mjtWarning.mjWARN_BADQVEL, mujoco.mjtWarning.mjWARN_BADQACC)):
+    # the reference diverged in this very step and reset itself (every tree awake again): nothing to compare with
+    rec.count("lockstep_ungated_mujoco_unstable")
+    return
   sel = mid["con_world"] == w
   gw = sorted(map(tuple, np.sort(mid["con_geom"][sel], axis=1).tolist()))
   gm = sorted(map(tuple, np.sort(np.array(mjd.contact.geom[: mjd.ncon]).reshape(-1, 2), axis=1).tolist()))
@@ -836,6 +875,27 @@ def lockstep(rec, topo, mjd, pre, mid, post, w, ctx, iterations, wlinks=None):
         f"tree {t} countdown {A1[t]} vs MuJoCo {B1[t]} after one step from the same state (before: {pre['tree_asleep'][w].tolist()}, after forward: {mid['tree_asleep'][w].tolist() if mid else None}){why} {ctx}",
         tree=int(t), mjw=A1.tolist(), mj=B1.tolist(),
       )
+    if woken_vel:
+      # a tree that both engines woke in this step is part of this step's solve in both: only gross disagreement
+      # (moved vs not moved) is judged, the rest is the solver's precision (C06/C38)
+      for t in np.nonzero((pre["tree_asleep"][w] >= 0) & ~Sw)[0]:
+        di = topo.tree_dofs[t]
+        scale = float(np.abs(qm[di]).max())
+        err = float(np.abs(qw[di] - qm[di]).max())
+        if scale < 1e-2 and err < 1e-2:
+          continue
+        rec.check()
+        if err <= 0.02 * max(scale, float(np.abs(qw[di]).max())) + 1e-4:
+          rec.count("lockstep_woken_tree_velocity_equal")
+        elif err > 0.5 * max(scale, float(np.abs(qw[di]).max())) + 1e-2:
+          # observed on the unchanged tree: a tree woken as a cycle mate whose tendon-limit row is assembled by MJWarp in
+          # the waking step but not by MuJoCo (one-step lag).  The property speaks about the awake/asleep evolution,
+          # not about the forces of the waking step: recorded, not judged.
+          if not rec.tally.get("lockstep_woken_tree_velocity_differs"):
+            rec.cover("woken_tree_velocity_differs_sample", f"tree {t}: {qw[di].tolist()} vs MuJoCo {qm[di].tolist()}; before {pre['tree_asleep'][w].tolist()} after {A1.tolist()}; links {[(k, list(ts)) for k, ts in (wlinks or []) if int(t) in ts]} {ctx}"[:300])
+          rec.count("lockstep_woken_tree_velocity_differs")
+        else:
+          rec.count("lockstep_woken_tree_velocity_grey")
     return
   # awake sets differ: judge only away from the tolerance
   diff = np.nonzero(Sw != Sm_)[0]
@@ -935,13 +995,18 @@ def integrate(mjw, m, d, integ):
 def run_hist(case, rec):
   import mujoco_warp as mjw
 
-  b = build(case, rec)
+  eqw = case["kind"] == "eqwake"
+  b = build_eqwake(case, rec) if eqw else build(case, rec)
   if b is None:
     return
   rng, xml, meta, mjm, m, integ = b
   topo = Topo(mjm)
-  d = fresh_data(mjm, m, init_states(rng, mjm, NWORLD), nconmax=NCONMAX, njmax=NJMAX)
-  ev = make_events(rng, mjm, topo, case["steps"], NWORLD)
+  if eqw:
+    d = fresh_data(mjm, m, eqwake_states(rng, mjm, NWORLD), nconmax=NCONMAX, njmax=NJMAX)
+    ev = eqwake_events(rng, mjm, topo, meta, case["steps"], NWORLD)
+  else:
+    d = fresh_data(mjm, m, init_states(rng, mjm, NWORLD), nconmax=NCONMAX, njmax=NJMAX)
+    ev = make_events(rng, mjm, topo, case["steps"], NWORLD)
   host = {k: getattr(d, k).numpy().copy() for k in ("xfrc_applied", "qfrc_applied", "eq_active", "ctrl", "qvel")}
   mons = [WorldMon(topo) for _ in range(NWORLD)]
   mjd = mujoco.MjData(mjm)
@@ -969,6 +1034,8 @@ def run_hist(case, rec):
       if mons[w].retired:
         continue
       ctx = f"[world {w} step {s}]"
+      if eqw:
+        eqwake_observe(rec, topo, meta, pre, mid, post, w, split)
       mons[w].step(rec, w, pre, mid, post, split, ctx)
       if mons[w].retired:
         rec.count("worlds_retired_after_cycle_corruption")
@@ -977,7 +1044,7 @@ def run_hist(case, rec):
       if split:
         check_derived(rec, topo, {"tree_asleep": mid["tree_asleep"], "tree_awake": mid["tree_awake"]}, w, ctx + " after forward")
       wl = topo.links(mid["con_geom"][mid["con_world"] == w], pre["eq_active"][w], mid["ten_length"][w])
-      lockstep(rec, topo, mjd, pre, mid if split else {**mid, "tree_asleep": post["tree_asleep"]}, post, w, ctx, iterations, wlinks=wl)
+      lockstep(rec, topo, mjd, pre, mid if split else {**mid, "tree_asleep": post["tree_asleep"]}, post, w, ctx, iterations, wlinks=wl, woken_vel=eqw)
     if any(v["sig"] not in CONTINUE_SIGS for v in rec.violations) or all(mn.retired for mn in mons):
       break
   nslept = sum(mn.nslept for mn in mons)
@@ -989,9 +1056,13 @@ def run_hist(case, rec):
     rec.cover("wake_causes", sorted(mn.wake_causes))
   rec.cover("policy_never_trees", int(topo.never.sum()))
   rec.cover("entry:" + case["entry"], 1)
+  if eqw:
+    rec.cover("eqw_trees_fell_asleep", nslept)
+    rec.cover("eqw_trees_woke", nwoke)
+    rec.cover("eqw_world_steps", NWORLD * case["steps"])
   if nslept and nwoke:
     rec.nontrivial(xml, repr(ev))
-  rec.sample = {"seed": case["seed"], "ntree": int(mjm.ntree), "nv": int(mjm.nv), "features": meta["features"], "tol": meta["tol"], "slept": nslept, "woke": nwoke, "events_world0": sorted(ev[0].items())[:4]}
+  rec.sample = {"seed": case["seed"], "kind": case["kind"], "ntree": int(mjm.ntree), "nv": int(mjm.nv), "features": meta["features"], "tol": meta["tol"], "slept": nslept, "woke": nwoke, "events_world0": sorted(ev[0].items())[:4]}
 
 
 def rollout(mjw, sched, m, d, mjm, topo, ev, steps, integ, mode, key, kernel_filter):
@@ -1049,13 +1120,18 @@ def run_sched(case, rec):
 
   from mon import sched
 
-  b = build(case, rec)
+  eqw = case["kind"] == "eqsched"
+  b = build_eqwake(case, rec) if eqw else build(case, rec)
   if b is None:
     return
   rng, xml, meta, mjm, m, integ = b
   topo = Topo(mjm)
-  sts = init_states(rng, mjm, NWORLD)
-  ev = make_events(rng, mjm, topo, case["steps"], NWORLD)
+  if eqw:
+    sts = eqwake_states(rng, mjm, NWORLD)
+    ev = eqwake_events(rng, mjm, topo, meta, case["steps"], NWORLD)
+  else:
+    sts = init_states(rng, mjm, NWORLD)
+    ev = make_events(rng, mjm, topo, case["steps"], NWORLD)
   sched.reset_counters()
   sched.start_log()
   runs = {}
@@ -1073,6 +1149,8 @@ def run_sched(case, rec):
   woke = int(((a[1:] < 0) & (a[:-1] >= 0)).sum())
   rec.cover("sched_trees_fell_asleep", slept)
   rec.cover("sched_trees_woke", woke)
+  if eqw:
+    rec.cover("eqsched_trees_woke", woke)
   if slept and woke:
     rec.nontrivial("sched", xml, repr(ev))
   rec.sample = {"seed": case["seed"], "kind": "sched", "ntree": int(mjm.ntree), "slept": slept, "woke": woke, "features": meta["features"]}
@@ -1146,9 +1224,9 @@ def run_wakeorder(case, rec):
 
 def run_case(case):
   rec = core.Rec(case)
-  if case["kind"] == "hist":
+  if case["kind"] in ("hist", "eqwake"):
     run_hist(case, rec)
-  elif case["kind"] == "sched":
+  elif case["kind"] in ("sched", "eqsched"):
     run_sched(case, rec)
   else:
     run_wakeorder(case, rec)
@@ -1176,4 +1254,14 @@ def requirements(agg, tier):
     unmet.append("two-contact wake scenario not reached")
   if agg["distinct"] < 10:
     unmet.append("fewer than 10 distinct non-trivial histories")
+  # run-time links: every body/site/joint equality family must have been switched on over sleeping trees in both
+  # configurations, and a tendon limit must have become active between an awake and a sleeping tree
+  for lk in EQW_REQUIRED:
+    for conf in ("asleep_in_two_cycles", "one_asleep_one_awake"):
+      if cov.get(f"eqw:{lk}:{conf}", 0) < 1:
+        unmet.append(f"run-time link never observed: {lk} active with trees {conf}")
+  if sum(cov.get(f"eqw:{lk}:limit_active_one_asleep_one_awake", 0) for lk in ("limit_fixed", "limit_spatial", "limit_wrap")) < 2:
+    unmet.append("fewer than 2 tendon limits became active between an awake and a sleeping tree")
+  if cov.get("eqw_trees_woke", 0) < 40:
+    unmet.append("fewer than 40 wake transitions in the run-time link scenes")
   return unmet
